@@ -220,6 +220,124 @@ var semCases = []semCase{
 	{"stray-close", "package foo.v1\n\nobject Foo {\n}\n}\n"},
 }
 
+// ---- abstract bundles that the compiler must REJECT (op total.neg): the same branch is visible to the
+// model, which answers from the abstract package
+
+type negCase struct {
+	class string
+	b     *j5sgen.Bundle
+	pkg   string
+}
+
+func negObj(name string, props ...*j5sgen.Prop) *j5sgen.Elem {
+	return &j5sgen.Elem{Kind: j5sgen.KObject, Object: &j5sgen.Object{Name: name, Props: props}}
+}
+
+func negFile(path, decl string, imports []j5sgen.Import, elems ...*j5sgen.Elem) *j5sgen.File {
+	return &j5sgen.File{Path: path, DeclPkg: decl, Imports: imports, Elems: elems}
+}
+
+func buildNegCases() []negCase {
+	inlEnum := func(filters ...string) *j5sgen.Field {
+		return &j5sgen.Field{Kind: j5sgen.FEnum, Ref: &j5sgen.TRef{Kind: j5sgen.RInlEnum, Opts: []string{"A", "B", "C"}}, HasList: true, ListFilters: filters}
+	}
+	refEnum := func(schema string, filters ...string) *j5sgen.Field {
+		return &j5sgen.Field{Kind: j5sgen.FEnum, Ref: &j5sgen.TRef{Kind: j5sgen.RRef, Schema: schema}, HasList: true, ListFilters: filters}
+	}
+	color := &j5sgen.Elem{Kind: j5sgen.KEnum, Enum: &j5sgen.Enum{Name: "Color", Opts: []string{"RED", "BLUE"}}}
+	one := func(class string, elems ...*j5sgen.Elem) negCase {
+		return negCase{class, &j5sgen.Bundle{Pkgs: []*j5sgen.Pkg{{Name: "foo.v1", Files: []*j5sgen.File{negFile("foo/v1/a.j5s", "", nil, elems...)}}}}, "foo.v1"}
+	}
+	str := func() *j5sgen.Prop { return &j5sgen.Prop{Name: "x", Field: &j5sgen.Field{Kind: j5sgen.FString}} }
+	out := []negCase{
+		one("enum-default-filter-inline", negObj("Foo", &j5sgen.Prop{Name: "f", Field: inlEnum("NOPE")})),
+		one("enum-default-filter-inline-second", negObj("Foo", &j5sgen.Prop{Name: "f", Field: inlEnum("A", "F_B", "NOPE")})),
+		one("enum-default-filter-ref", color, negObj("Item", &j5sgen.Prop{Name: "shade", Field: refEnum("Color", "BOGUS")})),
+		one("enum-default-filter-prefixed-twice", color, negObj("Item", &j5sgen.Prop{Name: "shade", Field: refEnum("Color", "COLOR_COLOR_RED")})),
+		one("enum-default-filter-array-item", negObj("Foo", &j5sgen.Prop{Name: "f", Field: &j5sgen.Field{Kind: j5sgen.FArray, Items: inlEnum("NOPE")}})),
+		{"package-mismatch", &j5sgen.Bundle{Pkgs: []*j5sgen.Pkg{{Name: "foo.v1", Files: []*j5sgen.File{
+			negFile("foo/v1/a.j5s", "other.v1", nil, negObj("Foo", str()))}}}}, "foo.v1"},
+		{"package-mismatch-second-file", &j5sgen.Bundle{Pkgs: []*j5sgen.Pkg{{Name: "foo.v1", Files: []*j5sgen.File{
+			negFile("foo/v1/a.j5s", "", nil, negObj("Foo", str())),
+			negFile("foo/v1/b.j5s", "foo.v2", nil, negObj("Bar", str()))}}}}, "foo.v1"},
+		{"package-mismatch-prefix", &j5sgen.Bundle{Pkgs: []*j5sgen.Pkg{{Name: "foo.v1", Files: []*j5sgen.File{
+			negFile("foo/v1/a.j5s", "foo", nil, negObj("Foo", str()))}}}}, "foo.v1"},
+		{"package-mismatch-in-dependency", &j5sgen.Bundle{Pkgs: []*j5sgen.Pkg{
+			{Name: "dep.v1", Files: []*j5sgen.File{negFile("dep/v1/d.j5s", "dep.v2", nil, negObj("Dep", str()))}},
+			{Name: "foo.v1", Files: []*j5sgen.File{negFile("foo/v1/a.j5s", "", []j5sgen.Import{{Path: "dep.v1"}},
+				negObj("Foo", &j5sgen.Prop{Name: "d", Field: &j5sgen.Field{Kind: j5sgen.FObject, Ref: &j5sgen.TRef{Kind: j5sgen.RRef, Pkg: "dep", Schema: "Dep"}}}))}},
+		}}, "foo.v1"},
+	}
+	return out
+}
+
+var negCases = buildNegCases()
+
+func negOp(nc negCase, style uint64) string {
+	return fmt.Sprintf("total.neg %s %s %s %d", nc.class, nc.b.Sexp().String(), j5sgen.S(nc.pkg).String(), style)
+}
+
+// breakBundle turns a valid generated bundle into one that must be rejected: a wrong package
+// declaration in one file, or a default filter that names no option of an inline enum.
+func breakBundle(h *vh.H, b *j5sgen.Bundle) negCase {
+	p := b.Pkgs[0]
+	var enums []*j5sgen.Field
+	var walkProps func(ps []*j5sgen.Prop)
+	walkField := func(f *j5sgen.Field) {}
+	walkField = func(f *j5sgen.Field) {
+		if f == nil {
+			return
+		}
+		if f.Kind == j5sgen.FEnum && f.Ref != nil && f.Ref.Kind == j5sgen.RInlEnum {
+			enums = append(enums, f)
+		}
+		if f.Ref != nil {
+			walkProps(f.Ref.Props)
+		}
+		walkField(f.Items)
+	}
+	walkProps = func(ps []*j5sgen.Prop) {
+		for _, pr := range ps {
+			walkField(pr.Field)
+		}
+	}
+	var walkObj func(o *j5sgen.Object)
+	walkObj = func(o *j5sgen.Object) {
+		walkProps(o.Props)
+		for _, n := range o.Nested {
+			if n.Object != nil {
+				walkObj(n.Object)
+			}
+		}
+	}
+	var j5s []*j5sgen.File
+	for _, f := range p.Files {
+		if f.Proto {
+			continue
+		}
+		j5s = append(j5s, f)
+		for _, e := range f.Elems {
+			if e.Object != nil {
+				walkObj(e.Object)
+			}
+		}
+	}
+	if len(enums) > 0 && h.Chance(1, 2) {
+		f := vh.Pick(h, enums)
+		f.HasList = true
+		bogus := vh.Pick(h, []string{"NOPE", "ZZ_NOT_AN_OPTION", "unspecified", "UNSPECIFIED_X"})
+		i := h.Rng.IntN(len(f.ListFilters) + 1)
+		f.ListFilters = append(f.ListFilters[:i:i], append([]string{bogus}, f.ListFilters[i:]...)...)
+		return negCase{"rand-enum-default-filter", b, p.Name}
+	}
+	f := vh.Pick(h, j5s)
+	f.DeclPkg = vh.Pick(h, []string{"other.v1", p.Name + ".sub", "v1", strings.TrimSuffix(p.Name, ".v1") + ".v2"})
+	if f.DeclPkg == p.Name {
+		f.DeclPkg = "other.v1"
+	}
+	return negCase{"rand-package-mismatch", b, p.Name}
+}
+
 // file cycle: two files of one package that refer to each other
 var cycleA = "package foo.v1\n\nobject A {\n  field b object:B\n}\n"
 var cycleB = "package foo.v1\n\nobject B {\n  field a object:A\n}\n"
@@ -294,7 +412,7 @@ func srcOp(kind, path, text string, rest *j5sgen.Bundle) string {
 const totalShards = 16
 
 func genTotal(h *vh.H, i int) string {
-	nDet := 2*len(matrix) + len(semCases) + 1
+	nDet := 2*len(matrix) + len(semCases) + 1 + len(negCases)
 	if j := i*totalShards + int(h.Seed%totalShards); j < nDet {
 		return genTotalDet(h, j)
 	}
@@ -327,6 +445,10 @@ func genTotalDet(h *vh.H, i int) string {
 		// possible, so the op carries file b in the TEXT with a separator understood by execTotalSrc
 		return srcOp("sem-file-cycle", "foo/v1/a.j5s", cycleA+"\x00FILE foo/v1/b.j5s\x00"+cycleB, &j5sgen.Bundle{})
 	}
+	i--
+	if i < len(negCases) {
+		return negOp(negCases[i], uint64(i))
+	}
 	return genTotalRandom(h)
 }
 
@@ -335,7 +457,9 @@ func genTotalRandom(h *vh.H) string {
 	cfg.MaxPkgs, cfg.MaxFiles = 1, 2
 	cfg.Rules = true
 	g := j5sgen.New(h.Rng, cfg)
-	switch h.Rng.IntN(10) {
+	switch h.Rng.IntN(11) {
+	case 10:
+		return negOp(breakBundle(h, g.Bundle()), 1+h.Rng.Uint64N(1<<30))
 	case 0, 1:
 		return srcOp("bytes", "foo/v1/a.j5s", randomBytes(h), &j5sgen.Bundle{})
 	case 2, 3, 4, 5:
@@ -541,6 +665,43 @@ func execTotalAst(h *vh.H, op string, co *compileOp) string {
 	}
 	if cls == "hang" {
 		return "panic"
+	}
+	return cls
+}
+
+// execTotalNeg: an abstract bundle outside the language. The result class is what the model is
+// compared on; the oracle is the positional half of C07 (an error must carry a position inside a
+// source file of the bundle).
+func execTotalNeg(h *vh.H, op string, class string, co *compileOp) string {
+	mb := j5sreal.FromAST(co.b, co.style)
+	var compileErr error
+	cls, detail := guarded(func() (string, string) {
+		r := j5sreal.Compile(mb, co.pkg)
+		switch r.Class {
+		case "panic":
+			panic(r.Panic + "\n" + trimStack(r.Stack))
+		case "err":
+			compileErr = r.Err
+			c, d := classifyErr(r.Err, mb.Files, "")
+			return c, d + "\n" + r.Err.Error()
+		}
+		return "ok", ""
+	})
+	h.Count("total.neg." + class + "." + cls)
+	h.Nontrivial(op)
+	switch cls {
+	case "panic":
+		h.Fail("c07-panic:neg-"+class+":"+classify(firstLine(detail)), op, detail+"\n"+dumpSources(mb))
+	case "hang":
+		h.Fail("c07-hang:neg-"+class, op, dumpSources(mb))
+		return "panic"
+	case "err:outside":
+		h.Fail("c07-position-outside:neg-"+class+":"+classify(compileErr.Error()), op, detail+"\n"+dumpSources(mb))
+	case "err:nopos", "err:virtual":
+		h.Fail("c07-"+strings.TrimPrefix(cls, "err:")+":"+classify(compileErr.Error()), op, "[neg-"+class+"] "+detail+"\n"+dumpSources(mb))
+	}
+	if strings.HasPrefix(cls, "err") {
+		return "err"
 	}
 	return cls
 }
